@@ -24,8 +24,17 @@ pub fn pool() -> Vec<String> {
     .collect();
     v.push("x".repeat(260));
     v.push("X".repeat(130));
+    // case partners where the cased letter is NOT `char::is_uppercase`: titlecase (Lt) letters fold onto their
+    // lower-case partner under `to_lowercase` (seeded change C07 r2-1)
+    for s in CASE_PARTNERS {
+        v.push(s.to_string());
+    }
     v
 }
+
+/// (x, y) adjacent: `x.to_lowercase() == y.to_lowercase()`, x != y, and no character of x is `is_uppercase`
+pub const CASE_PARTNERS: [&str; 8] =
+    ["\u{1c5}", "\u{1c6}", "\u{1c8}e", "\u{1c9}e", "\u{1f88}.alt", "\u{1f80}.alt", "a\u{1f2}", "a\u{1f3}"];
 
 pub fn invalid_pool() -> Vec<String> {
     vec!["".to_string(), "a\u{1}b".to_string(), "\u{7f}".to_string()]
@@ -401,6 +410,7 @@ fn layer_name_pool() -> Vec<String> {
         "a.", "A_01",
     ]
     .iter()
+    .chain(CASE_PARTNERS[..4].iter())
     .map(|s| s.to_string())
     .collect()
 }
@@ -471,6 +481,16 @@ pub fn gen(tier: &str, seed: u64, out: &mut dyn Write) {
         let with_entry = i % 8 == 7;
         let ops = gen_ops(&mut rng, len, &names, &lnames, with_entry);
         emit(out, &scratch, &init, &ops);
+    }
+    // directed: insert X, insert its case partner (both orders; glyphs and layers; with a removal in between)
+    for pair in CASE_PARTNERS.chunks(2) {
+        for (x, y) in [(pair[0], pair[1]), (pair[1], pair[0])] {
+            let (x, y) = (hexs(x), hexs(y));
+            emit(out, &scratch, "new", &[format!("ig.0.{}", x), format!("ig.0.{}", y)]);
+            emit(out, &scratch, "new", &[format!("ig.0.{}", x), format!("ig.0.{}", y), format!("rg.0.{}", x), format!("ig.0.{}", x)]);
+            emit(out, &scratch, "new", &[format!("nl.{}", x), format!("nl.{}", y)]);
+            emit(out, &scratch, "new", &[format!("nl.{}", x), format!("ig.1.{}", x), format!("ig.1.{}", y)]);
+        }
     }
     rm_rf(&scratch);
 }
